@@ -16,6 +16,7 @@
 package gomatrixserverlib
 
 import (
+	"encoding/json"
 	"fmt"
 	"strings"
 	"unicode/utf8"
@@ -109,6 +110,77 @@ func checkRoomIDField(id string) error {
 		return fmt.Errorf("gomatrixserverlib: invalid room ID %q: %w", id, err)
 	}
 	return nil
+}
+
+// checkUntrustedEventJSON refuses event JSON received from another server that the parsers used
+// in this package do not read the same way.
+func checkUntrustedEventJSON(eventJSON []byte) error {
+	// A member name that occurs twice in one object: gjson / sjson read and delete the first
+	// occurrence, encoding/json keeps the last one. The content hash check would then look at
+	// another "hashes" (or "unsigned", "content", ...) member than redaction, the signature
+	// checks and the event ID do. Servers re-serialise events, so no honest server sends this.
+	if name, found := duplicateJSONKey(eventJSON); found {
+		return BadJSONError{fmt.Errorf("gomatrixserverlib: duplicate key %q in event JSON", name)}
+	}
+	return nil
+}
+
+// encoding/json refuses documents nested deeper than this.
+const maxJSONNestingDepth = 10000
+
+// duplicateJSONKey looks for an object, at any depth, that has two members with the same name.
+// It walks over the text once. Text that is not valid JSON, or that is nested too deeply for
+// encoding/json, is not its business: the decoding that follows refuses it.
+func duplicateJSONKey(data []byte) (name string, found bool) {
+	var stack []map[string]struct{} // member names of the enclosing objects; nil for an array
+	expectKey := false              // the next string is a member name
+	for i := 0; i < len(data); i++ {
+		switch data[i] {
+		case '{':
+			stack = append(stack, map[string]struct{}{})
+			expectKey = true
+		case '[':
+			stack = append(stack, nil)
+			expectKey = false
+		case '}', ']':
+			if len(stack) == 0 {
+				return "", false
+			}
+			stack = stack[:len(stack)-1]
+			expectKey = false
+		case ',':
+			expectKey = len(stack) > 0 && stack[len(stack)-1] != nil
+		case '"':
+			end, escaped := i+1, false
+			for end < len(data) && data[end] != '"' {
+				if data[end] == '\\' {
+					escaped = true
+					end++
+				}
+				end++
+			}
+			if end >= len(data) {
+				return "", false
+			}
+			if expectKey {
+				key := string(data[i+1 : end])
+				if escaped && json.Unmarshal(data[i:end+1], &key) != nil {
+					return "", false
+				}
+				names := stack[len(stack)-1]
+				if _, dup := names[key]; dup {
+					return key, true
+				}
+				names[key] = struct{}{}
+				expectKey = false
+			}
+			i = end
+		}
+		if len(stack) > maxJSONNestingDepth {
+			return "", false
+		}
+	}
+	return "", false
 }
 
 // SplitID splits a matrix ID into a local part and a server name.
